@@ -255,7 +255,8 @@ def s_s2a(draw):
         vals = draw(st.lists(st.sampled_from([0, 1, 10, 11, 100, 101, 110, 111, 1000]), min_size=rows * n, max_size=rows * n))
     return {"kind": kind, "rows": rows, "n": n, "vals": vals, "sep": draw(st.sampled_from(SEPS)), "rsep": draw(st.sampled_from(ROWS)),
             "unit": draw(st.sampled_from(["j", "i"])), "glue": draw(st.booleans()),
-            "dtype": draw(st.sampled_from([None, None, "int", "float", "complex", "bool"])), "fmt": draw(st.sampled_from(["%.6f", "%.4f", "%.1f"]))}
+            "dtype": draw(st.sampled_from([None, None, "int", "float", "complex", "bool"])), "fmt": draw(st.sampled_from(["%.6f", "%.4f", "%.1f"])),
+            "dtform": draw(st.sampled_from(["builtin", "builtin", "np.dtype", "str"]))}      # the dtype as int / np.dtype(int) / 'int' ... (all equal to the builtin)
 
 
 def _render(c):
@@ -326,7 +327,10 @@ def e_s2a(c):
     else:
         if (dt in (int, bool, float) and natural is complex) or (dt is int and natural is float):
             return {"nontrivial": False, "classes": ["narrowing-dtype-skipped"]}
-        r = lib(U.str2array, text, dt)
+        dt_arg = dt
+        if dt in (int, float, complex) and c.get("dtform") == "np.dtype":
+            dt_arg = np.dtype(dt)           # e.g. other_array.dtype: compares equal to the builtin type
+        r = lib(U.str2array, text, dt_arg)
         want_dt = {int: np.integer, float: np.floating, complex: np.complexfloating, bool: np.bool_}[dt]
         check(isinstance(r, np.ndarray) and np.issubdtype(r.dtype, want_dt), "str2array-explicit-dtype", f"{text!r},{c['dtype']} -> {getattr(r, 'dtype', None)}")
         if only01 and dt is bool:
@@ -367,7 +371,8 @@ def e_s2a_bad(c):
     return {"nontrivial": True, "classes": [c["base"]["kind"]]}
 
 
-ALPHA = list("01") * 4 + list("23456789") + list(",; .+-ji") * 2 + ["e", "x", "\t", "\n"]
+ALPHA = list("01") * 4 + list("23456789") + list(",; .+-ji") * 2 + ["e", "x", "\t", "\n", "\u0661", "\u0969", "\uff12", "\u00b2", "\u00a0"]
+#        (... plus decimal digits of other scripts - Arabic-Indic 1, Devanagari 3, fullwidth 2 -, a superscript 2 and a no-break space: not in the grammar)
 
 
 def e_s2a_fuzz(c):
